@@ -111,6 +111,8 @@ class ClosedMaint(explore.System):
                 for o, _ in self.tr[n].sent:
                     if (H.parse_out(o) or {}).get("type", 0) & H.T_ACK:
                         viol.append(("acknowledgement_sent_by_the_event_loop_not_by_the_handling_of_a_message", {"event": list(ev), "handler": n, "sent": o.hex()}))
+                    if H.is_rrs_success_answer(o, H.IP_A):
+                        viol.append(("registration_answered_again_by_the_event_loop", {"event": list(ev), "handler": n, "sent": o.hex()}))
                 sent += self._collect(n, spontaneous=True)
             if sent:
                 self.since_spontaneous = 0
